@@ -169,6 +169,36 @@ def proof_gate(prop):
     return dict(obligations=len(theorems), discharged=discharged, problems=problems, assumptions=sorted(used), theorems=theorems)
 
 
+def coqchk_gate(pid):
+    """thorough tier: re-check Props/<id>.vo and everything it depends on with the independent
+    checker; its axiom list (axioms of every LOADED library, used or not) must be standard-library
+    declarations only, and nothing may rely on type-in-type, unsafe fixpoints or assumed positivity."""
+    rc, out = sh(['coqchk', '-silent', '-o', '-Q', 'theories', 'UEC', 'UEC.Props.' + pid], cwd=COQ, timeout=3000)
+    res = dict(cmd='coqchk -silent -o -Q theories UEC UEC.Props.%s' % pid, exit=rc, axioms=[], problems=[])
+    if rc != 0:
+        res['problems'].append('coqchk failed: ' + out[-1500:])
+        return res
+    sect = None
+    for line in out.splitlines():
+        l = line.strip()
+        if l.startswith('* '):
+            sect = l
+            if l.endswith('<none>') or l == '* Theory: Set is predicative':
+                sect = None
+            elif not l.startswith('* Axioms'):
+                res['problems'].append('coqchk: ' + l)
+            continue
+        if not l or sect is None:
+            continue
+        if sect.startswith('* Axioms'):
+            res['axioms'].append(l)
+            if not l.startswith('Coq.'):
+                res['problems'].append('coqchk: axiom outside the standard library: ' + l)
+        else:
+            res['problems'].append('coqchk: %s %s' % (sect, l))
+    return res
+
+
 # --------------------------------------------------------------------------
 # wire encoding (must match Base/Wire.v)
 def enc_tree(t, out):
@@ -550,6 +580,13 @@ def decide(prop, tier, seed, t0):
             broken.append(dict(what='proof', name='Props/%s.v' % pid, detail=p))
     for b in bad:
         broken.append(dict(what='proof', name='forbidden vernacular', detail=b))
+    if ok and tier == 'thorough':
+        chk = coqchk_gate(pid)
+        ev_cov['coqchk'] = dict(cmd=chk['cmd'], exit=chk['exit'], library_axioms=len(chk['axioms']),
+                                non_stdlib_axioms=[a for a in chk['axioms'] if not a.startswith('Coq.')],
+                                stdlib_axioms_outside_primitives=sorted(a for a in chk['axioms'] if not (a.startswith('Coq.Numbers.Cyclic.Int63.') or a.startswith('Coq.Floats.'))))
+        for p in chk['problems']:
+            broken.append(dict(what='proof', name='coqchk UEC.Props.%s' % pid, detail=p))
 
     # 2. harness against the current tree
     hok, hout = build_harness()
